@@ -265,11 +265,16 @@ def build(item, chooser_shim=None):
             batt = Linear2StageBattery(req, 0.0, 7.0)
         elif e == "met":
             batt, req = Battery(10.0, 5.0, 7.0), 0.4 + 0.01 * j  # met within one 5-minute period at 32 A
+        elif j % 3 == 2:
+            # never satisfied, but its battery is FULL after the first period (request above the battery's head-room): it
+            # keeps its space until it departs - a full battery is not a met request
+            batt, req = Battery(2.0, 1.5, 7.0), 6.0
         else:
             batt, req = Battery(100.0, 0.0, 7.0), 60.0
         # the session's nominal station id is a REGISTERED station for every second session (the network
         # assigns the real one), an unknown name for the others
-        ev = EV(a, d, req, "S%d" % (j % item["ns"]) if j % 2 == 0 else "nowhere", "ev%d" % j, batt)
+        # every second driver announces a later departure than the real one (it only informs schedulers)
+        ev = EV(a, d, req, "S%d" % (j % item["ns"]) if j % 2 == 0 else "nowhere", "ev%d" % j, batt, estimated_departure=(d + 2 if j % 2 == 1 else None))
         evs.append(ev)
         events.append(PluginEvent(a, ev))
     algo = UncontrolledCharging()
@@ -422,6 +427,11 @@ def run_once(item, chooser, collect=None):
                             m.early_unplug += 1
                             m.swaps += 1
             info["periods"] += 1
+            # a session is on site (connected or waiting) only in the periods before its departure
+            late = sorted(sid for sid in (m.arrived - m.gone) if by_id[sid].departure <= sim._iteration)
+            if late:
+                rep("departure:still-on-site", "end of period %d: session(s) %s whose departure period (%s) has come are still connected or waiting" % (sim._iteration, late, [by_id[x].departure for x in late]), late, [])
+                return
             if compare("end of period %d" % sim._iteration):
                 if net.early_unplug != m.early_unplug:
                     rep("counter:early_unplug", "early_unplug = %d, model %d" % (net.early_unplug, m.early_unplug), net.early_unplug, m.early_unplug)
